@@ -136,7 +136,7 @@ def r2_opath_steps(ctx):
         elif len(good) != len(guards):
             out.append(violated("C06.R2", key, s.where(), "verify_same_mnt is not comparing against fetch_mnt_id(root, \"\") of the walk's root"))
         elif bad:
-            out.append(violated("C06.R2", key, s.where(), "fd used/adopted/returned before verify_same_mnt succeeded: %s" % sorted({repr(u[2])[:80] for u in bad})))
+            out.append(violated("C06.R2", key, s.where(), "fd used/adopted/returned before verify_same_mnt succeeded: %s" % sorted({(repr(u[2])[:80] if u[0] == "call" else "return value") for u in bad})))
         else:
             out.append(holds("C06.R2", key, s.where(), "%d uses behind verify_same_mnt(root_mnt_id, fd, \"\")" % len(uses)))
     return out
@@ -453,7 +453,38 @@ def _shallow(ctx, term):
     return res
 
 
+def r7_base_through_resolver(ctx):
+    """The base directory (self / thread-self / .) is itself looked up by the restricted procfs resolver
+    (RESOLVE_NO_XDEV|BENEATH or the per-step emulation), and lookups start from it."""
+    F = ctx.facts
+    T = ctx.tracer
+    out = []
+    ob = F.body(PH + "::open_base")
+    ro = [o for o in T.return_origins(ob, ("0",))]
+    ok = bool(ro) and all(o.kind == "call" and o.term.callee in LOOKUP for o in ro)
+    (out.append(holds("C06.R7", "open_base:via-resolver", ob.where(), "base directory comes from ProcfsResolver::resolve on the handle's own root")) if ok else
+     out.append(violated("C06.R7", "open_base:via-resolver", ob.where(), "the procfs base directory is not looked up through the restricted resolver: %r" % ro)))
+    for t in ob.calls(*LOOKUP):
+        r0 = T.origins_of_arg(t, 1)
+        okr = bool(r0) and all(o.kind == "param" and o.detail == 1 and o.fpath[-1:] == ("inner",) for o in r0)
+        (out.append(holds("C06.R7", "open_base:from-own-root", t.where(), "lookup starts at the handle's own procfs root fd")) if okr else
+         out.append(violated("C06.R7", "open_base:from-own-root", t.where(), "base lookup does not start from the handle's root fd: %r" % r0)))
+    n = 0
+    for b in F.fn_bodies():
+        if b.file != "src/procfs.rs" or b is ob:
+            continue
+        for t in b.calls(*LOOKUP):
+            n += 1
+            r0 = T.origins_of_arg(t, 1)
+            okb = bool(r0) and all(o.kind == "call" and o.term.callee == PH + "::open_base" for o in r0)
+            key = "%s:lookup-root" % fn_key(b)
+            (out.append(holds("C06.R7", key, t.where(), "sub-path lookup starts at the verified base directory")) if okb else
+             out.append(violated("C06.R7", key, t.where(), "sub-path lookup does not start at open_base()'s verified directory: %r" % r0)))
+    return out
+
+
 RULES = [
+    ("C06.R7", r7_base_through_resolver, 3, False),
     ("C06.R1", r1_open_verified, 3, False),
     ("C06.R2", r2_opath_steps, 2, False),
     ("C06.R3", r3_open_follow, 2, False),
